@@ -43,7 +43,12 @@ type exchange struct {
 	gzip     bool
 	sse      bool
 	seg      int
+	rules    []string // configured --response-header rules
 }
+
+// resRuleSets: configured --response-header rules (C16 checks the rule semantics in isolation; here: that
+// they are applied to every relayed response, in every mode, and to nothing else).
+var resRuleSets = [][]string{nil, {"X-Added: v"}, {"-Set-Cookie"}, {"-X-*"}, {"%x-mixed-case"}, {"Server;", "-ETag"}}
 
 var statuses = []struct {
 	code   int
@@ -63,6 +68,7 @@ var resShapes = []struct {
 	{"content-type", []F{{"Content-Type", "text/plain; charset=utf-8"}, {"ETag", "\"e\""}, {"Date", "Sat, 01 Jan 2000 00:00:00 GMT"}}},
 	{"empty-value", []F{{"X-Empty", ""}, {"Server", "o/1"}}},
 	{"upgrade-field", []F{{"Upgrade", "h2c"}, {"Te", "x"}}},
+	{"nominated-list-syntax", []F{{"Connection", "X-Hop-A,X-Hop-B ,,\tX-Hop-C"}, {"X-Hop-A", "a"}, {"X-Hop-B", "b"}, {"Connection", "X-Hop-D"}, {"X-Hop-C", "c"}, {"X-Hop-D", "d"}, {"X-Stay", "s"}}},
 }
 
 var hopByHop = map[string]bool{"connection": true, "keep-alive": true, "proxy-authenticate": true, "proxy-authorization": true,
@@ -261,6 +267,32 @@ func expectResponse(x *explore.X, e exchange, got httpwire.Msg, handlerMode bool
 	for _, f := range got.Fields {
 		gotBy[strings.ToLower(f.Name)] = append(gotBy[strings.ToLower(f.Name)], f.Value)
 	}
+	// configured response-header rules, applied in order to what the origin sent (rule names are disjoint
+	// from the hop-by-hop names, so the order of the two steps cannot be observed)
+	for _, rule := range e.rules {
+		switch {
+		case strings.HasPrefix(rule, "-") && strings.HasSuffix(rule, "*"):
+			pre := strings.ToLower(rule[1 : len(rule)-1])
+			for name := range sent {
+				if strings.HasPrefix(name, pre) {
+					delete(sent, name)
+				}
+			}
+		case strings.HasPrefix(rule, "-"):
+			delete(sent, strings.ToLower(rule[1:]))
+		case strings.HasPrefix(rule, "%"):
+			for _, f := range got.Fields {
+				if strings.EqualFold(f.Name, rule[1:]) && f.Name != rule[1:] {
+					fail("response-header-rule/rename", "rule %s: field is spelt %q in the response the client received", rule, f.Name)
+				}
+			}
+		case strings.HasSuffix(rule, ";"):
+			sent[strings.ToLower(rule[:len(rule)-1])] = []string{""}
+		default:
+			n, v, _ := strings.Cut(rule, ":")
+			sent[strings.ToLower(n)] = append(sent[strings.ToLower(n)], strings.TrimSpace(v))
+		}
+	}
 	for name, vals := range sent {
 		switch {
 		case name == "connection":
@@ -380,6 +412,8 @@ func scenario(x *explore.X, incremental bool) {
 		pki = world.NewPKI("harness origin CA")
 		opts.TransportCAPEM = pki.CAPEM
 	}
+	rules := resRuleSets[x.Choose("response-header-rules", len(resRuleSets))]
+	opts.ResponseHeaders = rules
 	var exs []exchange
 	if incremental {
 		exs = []exchange{chooseIncremental(x)}
@@ -431,6 +465,7 @@ func scenario(x *explore.X, incremental bool) {
 	var outcome []string
 	closed := false
 	for i, e := range exs {
+		e.rules = rules
 		if closed {
 			break
 		}
@@ -605,7 +640,7 @@ func clientBodySoFar(stream []byte) []byte {
 
 func TestC02(t *testing.T) {
 	s := explore.NewSuite(t, "C02", "exploration",
-		"sequences of 1-3 exchanges on one client connection; each exchange = request method(3) x client version(2) x client Connection option(3) x origin status(7) x header shape(7) x framing(CL, chunked, EOF-delimited 1.1, EOF-delimited 1.0) x size(10) x chunking/trailers(5) x content(plain, gzip solicited by the proxy, gzip solicited by the client, event stream) x origin write segmentation(8) x configuration(TCP server, TestingHTTPHandler, MITM); all combinations with at most D deviations (D=3 quick, 4 thorough) from the default sequence are executed and the client's byte stream is parsed by the independent parser and compared message by message with expectResponse; plus the full product of the incremental-delivery scenario (stream kind x event size x events x client version x configuration); non-trivial = at least one response was compared")
+		"sequences of 1-3 exchanges on one client connection; each exchange = request method(3) x client version(2) x client Connection option(3) x origin status(7) x header shape(8) x framing(CL, chunked, EOF-delimited 1.1, EOF-delimited 1.0) x size(10) x chunking/trailers(5) x content(plain, gzip solicited by the proxy, gzip solicited by the client, event stream) x origin write segmentation(8) x configuration(TCP server, TestingHTTPHandler, MITM) x configured --response-header rule set(6: none, append, remove, prefix removal, rename, set-empty+remove); all combinations with at most D deviations (D=3 quick, 4 thorough) from the default sequence are executed and the client's byte stream is parsed by the independent parser and compared message by message with expectResponse; plus the full product of the incremental-delivery scenario (stream kind x event size x events x client version x configuration); non-trivial = at least one response was compared")
 	s.Assume = []string{"simnet models TCP", "httpwire is trusted", "compress/gzip is used to build and check gzip bodies"}
 	s.Add(explore.Scenario{Name: "exchanges", Remote: true, MaxDev: map[string]int{"quick": 3, "thorough": 4},
 		Run: func(x *explore.X) { world.Run(t, x, func() { scenario(x, false) }) }})
